@@ -30,9 +30,13 @@ schema(A.Annotated, version='str?', version_doc='str?', skip='bool', introspecta
        attributes='AttrDict', stability='str?', stability_doc='str?', deprecated='str?',
        deprecated_doc='str?', doc='str?', doc_position='Position?')
 schema(A.Node, namespace='Namespace?', name='str?', foreign='bool', file_positions='set', _parent='any')
+from givc.model import named_spec as _ns0, TypeSpec as _TS0, parse_spec as _ps0   # noqa
+# the lookup tables of a namespace are different dictionaries (ownership regions)
+_ns0('NsNames', _TS0('dict', (), False, _ps0('Node'), region='namespace.names'))
+_ns0('NsSymbols', _TS0('dict', (), False, _ps0('Node|Member'), region='namespace.symbols'))
 schema(A.Namespace, name='str', version='str?', identifier_prefixes='list[str]', symbol_prefixes='list[str]',
-       names='dict[Node]', aliases='dict', type_names='dict[Node]', ctypes='dict[Node]',
-       symbols='dict[Node|Member]', includes='set', shared_libraries='list[str]', c_includes='list[str]',
+       names='NsNames', aliases='dict', type_names='dict[Node]', ctypes='dict[Node]',
+       symbols='NsSymbols', includes='set', shared_libraries='list[str]', c_includes='list[str]',
        exported_packages='list[str]', doc_format='str')
 schema(A.Registered, gtype_name='str?', get_type='str?')
 schema(A.Callable, _retval='Return', _parameters='list[Parameter]', throws='bool',
